@@ -15,7 +15,7 @@ claim("C06",
       "sole segment's condition is not evaluated there). Tie to the code: byte-equal outputs of model and implementation on the exhaustive "
       "truth-table lattice over all six entry kinds and on random documents; the property is also monitored on the implementation alone: its "
       "outputs for a document must equal (up to blank lines) those for the document with every excluded entry deleted and every included entry "
-      "made unconditional (pruning computed by the Lean spec), and an unmentioned option must change nothing.",
+      "made unconditional (pruning computed by the Lean spec), and an unmentioned option must change nothing. Props/C06Src.lean (translator tie): shouldEmit_src - the model's predicate equals the statement-by-statement translation of the body of RuntimeSettings::should_emit_entry that tools/extract_logic.py regenerates from /repo's current runtime_settings.rs on every run; source_is_documented - that translation is the documented predicate. The check also follows generation errors: a document whose generation fails must fail in the same way with its excluded entries deleted.",
       "Lean 4 proofs of the predicate, of no-trace (deletion) and of unmentioned options + differential correspondence + metamorphic pruning monitor",
       "DESIGN.md §8 C06")
 claim("C12",
@@ -71,7 +71,7 @@ claim("C17",
       "implementation's own script text (top-level statements, number/form/position of _gp definitions, none in partial sub-scripts). Image theorem "
       "image_gp_value (over the Lean linker semantics Slinkyv.Ld, validated against GNU ld on every linked case): behind the group's statements "
       "_gp holds the group start (after both start alignments) plus offset, 32-bit. The link-time meaning of EXTERN/ASSERT/PROVIDE is GNU ld's and "
-      "is exercised only by the ld-lab runs (partial).",
+      "is exercised only by the ld-lab runs (partial). Props/C17Final.lean, final_gp_value / final_gp_value_partial: in the image of the whole ordinary script and of the main script of partial mode, `_gp` is the value of the start symbol of the group of the gp_info section plus the offset (32-bit), for `_gp` and that symbol assigned once. Props/C17Src.lean: ENTRY / EXTERN / ASSERT / the required-symbol texts / both `_gp` forms are format! of the templates in /repo's current sources.",
       "Lean 4 proof over the writer model + differential correspondence + text predicate on implementation outputs", "DESIGN.md §8 C17")
 claim("C18",
       "Lean theorem C18.tail (Props/C18.lean): end_sections — shared by multi-segment, single-segment and partial sub-scripts — writes, "
@@ -107,7 +107,7 @@ claim("C16",
       "{absent,null,value}, empty condition lists x 6 record kinds) and on mutated random documents. Props/C16Src.lean: the key tables of the "
       "model's decoder name exactly the fields of the *Serial structs of /repo's current sources, each with deny_unknown_fields "
       "(lean/Src/Tables.lean, regenerated by tools/extract_tables.py on every run: translator tie). The bytes -> value tree step is "
-      "serde_yaml's (not modelled).",
+      "serde_yaml's (not modelled). Props/C16Logic.lean: kindFromPath_src - the kind guessed from a path is the table of arms of FileKind::from_path in /repo's current file_kind.rs (translated on every run).",
       "Lean 4 proof of accept = declarative validity predicate for the whole document + exhaustive lattices against the same predicate",
       "DESIGN.md §8 C16")
 
@@ -219,7 +219,12 @@ claim("C05",
       "equal, for every style and name, the functions lean/Src/Tables.lean holds, which tools/extract_tables.py regenerates from the format! "
       "strings of /repo's current linker_symbols_style.rs on every run (translator tie; the section-name conversion is fingerprinted). Image theorem image_group_symbols: for every object table and link state, a group's "
       "start symbol <= end symbol, size = end - start (32-bit), and the input sections its statements placed lie between them in the open output "
-      "section. The known finding KF-C05-kind-start-before-header is reported as such." + IMG,
+      "section. Props/C05Final.lean, final_group_symbols: in the image Ld.link returns for the whole ordinary script (and, Props/C05Partial.lean, "
+      "for the main script of partial mode) the start, end and size symbol of the group of any section of an emitted segment are numbers "
+      "s <= e and e - s, for symbols the script assigns once; the way to the group (group_in_segment: header, `{`, the groups in front lead to a "
+      "state inside the output section) is proved for every document. Props/C05Fmt.lean: the assignment forms, ABSOLUTE(a - b) and the "
+      "<segment>_alloc/_noload names are format! of the templates in /repo's current sources (translator tie). "
+      "The known finding KF-C05-kind-start-before-header is reported as such." + IMG,
       "Lean 4 proofs of completeness/naming/size statements + real-link oracle for values", "DESIGN.md §8 C05")
 claim("C09",
       "Lean theorems (Props/C09.lean): arithmetic of ALIGN (alignUp_dvd, alignUp_ge, align_both: after two successive alignments by a | b or "
@@ -235,7 +240,7 @@ claim("C10",
       "member_statements (header address = class start; END = MAX(END, seg end) after the member), class_sizes (one SIZE = END - START per opened "
       "class, none for the others). Image theorems: image_class_prologue (start symbol = fixed_vram | value of fixed_symbol | largest end symbol among "
       "the followed classes, end symbol = 0), image_member_starts_at_class_start, image_class_end_accumulates (END = max(END, member VRAM end)). Known "
-      "finding KF-C10-followed-member-listed-later: a member of a followed class listed after the follower's first member is not seen by the follower." + IMG,
+      "finding KF-C10-followed-member-listed-later: a member of a followed class listed after the follower's first member is not seen by the follower. Props/C10Final.lean, final_class_fixed_vram: in the image Ld.link returns for the whole ordinary script (Props/C10Partial.lean: and for the main script of partial mode) every emitted member of a class with fixed_vram v is recorded at v and the class start symbol is v, first member or later (class_start_kept carries the value through the fold over the segments; the symbol must be assigned once). Props/C10Src.lean: MAX(s, s, other), the class literals and `end - start` are format! of the source's templates." + IMG,
       "Lean 4 proofs of the class statements + real-link oracle for values", "DESIGN.md §8 C10")
 claim("C11",
       "Lean theorems (Props/C11.lean): one_script_per_emitted_segment, same_statements (the emitter does not read the two flags that distinguish a "
